@@ -263,7 +263,29 @@ func homeSweep(rec *stats.Rec, K int, withExp bool, oracle string, judge func(c 
 		}
 	}
 	fc := featureCover(cover)
-	sweepBases(rec, append(append([]sweepBase{}, cover...), fc...), nil, withExp, oracle, judge, onViolation)
+	// synthetic revocation lists and OCSP responses with the fields the corpus lacks, linted with every lint of their kind
+	var rich []sweepBase
+	var crlLints, ocspLints []string
+	for _, l := range registryLints(lint.GlobalRegistry()) {
+		switch l.Kind {
+		case "crl":
+			crlLints = append(crlLints, l.Name)
+		case "ocsp":
+			ocspLints = append(ocspLints, l.Name)
+		}
+	}
+	for _, o := range gen.RichCRLs() {
+		if _, ok := gen.ParseCRL(o.DER); ok && len(crlLints) > 0 {
+			rich = append(rich, sweepBase{Obj: o, Lints: crlLints})
+		}
+	}
+	for _, o := range gen.RichOCSPs() {
+		if _, ok := gen.ParseOCSP(o.DER); ok && len(ocspLints) > 0 {
+			rich = append(rich, sweepBase{Obj: o, Lints: ocspLints})
+		}
+	}
+	rec.ClassN("rich_synthetic_bases", int64(len(rich)))
+	sweepBases(rec, append(append(append([]sweepBase{}, cover...), fc...), rich...), nil, withExp, oracle, judge, onViolation)
 	rec.Note("featuresweep", fmt.Sprintf("%d further certificates carry an object identifier that no home object has; the field around it (extension / RDN / top-level field) is swept with every lint that runs on the certificate", len(fc)))
 	rec.Note("homesweep", fmt.Sprintf("K=%d: %d base objects cover %d lints; every (leaf x type-aware edit) mutant enumerated", K, len(cover), len(lintsCovered)))
 	rec.Exhaustive("home-sweep", true)
